@@ -29,7 +29,62 @@ def contains_forward_ref(tp: Any, depth: int = 0) -> bool:
     return any(contains_forward_ref(a, depth + 1) for a in typing.get_args(tp))
 
 
+_SCAN = r"""
+import sys, typing, json
+import attrs
+from lsprotocol import converters, types as t
+before = sorted(k for k in t.ALL_TYPES_MAP)
+converters.get_converter()
+def has_fwd(tp, d=0):
+    if isinstance(tp, (str, typing.ForwardRef)):
+        return True
+    if d > 20 or getattr(tp, "__origin__", None) is getattr(typing, "Literal", object()):
+        return False
+    return any(has_fwd(a, d + 1) for a in getattr(tp, "__args__", ()) or ())
+bad, n = [], 0
+for name, obj in sorted(t.ALL_TYPES_MAP.items(), key=lambda kv: kv[0]):
+    if isinstance(obj, type) and attrs.has(obj):
+        for a in attrs.fields(obj):
+            n += 1
+            if has_fwd(a.type):
+                bad.append([name, a.name, repr(a.type)[:200]])
+print(json.dumps({"version": sys.version.split()[0], "fields": n, "unresolved": bad}))
+"""
+
+
+def other_interpreters(ctx: Ctx) -> dict:
+    """"all forward references resolve when a converter is first created" - on every Python version the package supports:
+    the same scan in a fresh process of every interpreter installed next to this one (with this one's attrs/cattrs)."""
+    import glob
+    import json
+    import os
+    import subprocess
+    import sys
+    from ..subject import REPO
+    site = os.path.dirname(os.path.dirname(attrs.__file__))
+    env = {"PYTHONPATH": os.pathsep.join([os.path.join(REPO, "packages", "python"), site]), "PYTHONHASHSEED": "0",
+           "PYTHONDONTWRITEBYTECODE": "1", "PATH": "/usr/bin:/bin"}
+    stats = {"interpreters": [], "unusable": [], "fields_scanned": 0}
+    for exe in sorted(glob.glob("/root/.pyenv/versions/3.*/bin/python")):
+        ver = os.path.basename(os.path.dirname(os.path.dirname(exe)))
+        if int(ver.split(".")[1]) < 8 or ver == "%d.%d.%d" % sys.version_info[:3]:
+            continue
+        r = subprocess.run([exe, "-B", "-c", _SCAN], capture_output=True, text=True, timeout=600, env=env)
+        if r.returncode != 0:
+            stats["unusable"].append([ver, (r.stderr.strip().splitlines() or ["?"])[-1][:160]])
+            continue
+        res = json.loads(r.stdout.strip().splitlines()[-1])
+        stats["interpreters"].append(ver)
+        stats["fields_scanned"] += res["fields"]
+        mm = "python" + ".".join(ver.split(".")[:2])
+        for cname, aname, shown in res["unresolved"]:
+            ctx.finding(("unresolved-forward-ref", f"{cname}.{aname}", mm), f"Python {ver}: after the first get_converter() the field type is still {shown}",
+                        {"locus": f"{cname}.{aname}", "interpreter": exe})
+    return stats
+
+
 def run(ctx: Ctx, sub=None) -> None:
+    committed = sub is None
     sub = sub or valuecheck.subject()
     m, t = sub.model, sub.types
     mp = Mapper(sub)
@@ -205,6 +260,10 @@ def run(ctx: Ctx, sub=None) -> None:
                     unresolved += 1
                     fail("unresolved-forward-ref", f"{name}.{a.name}", f"{a.type!r}")
     samples.append({"registry_names": len(reg), "defined": len(defined)})
+    if committed:
+        st_ = other_interpreters(ctx)
+        evaluations += st_["fields_scanned"]
+        samples.append({"other_interpreters": st_})
     ctx.coverage.update({
         "evaluations": evaluations, "distinct_nontrivial": len(nontrivial), "rule": RULE, "samples": samples,
         "exhaustive": True, "methods": len(methods), "registry_names": len(reg), "definitions": len(defined),
